@@ -302,7 +302,7 @@ static inline std::string cmp_model(const Program &p, const Transcript &x, const
         else if (a.ret != b.ret) what = "return value";
         else if (b.has_out && a.has_out && a.out != b.out) what = "output bytes";
         else if (b.has_out != a.has_out) what = "output presence";
-        else if (check_pub && !b.pub.empty() && a.pub != b.pub) what = "public field";
+        else if (check_pub && !b.pub.empty() && a.pub.substr(0, a.pub.find(';')) != b.pub) what = "public field";   // (';...' = monitor annotations)
         if (what) {
             std::string s = std::string("op #") + std::to_string(i) + " [" + ser(p[i]).substr(0, 240) + "]: " + what + ": library{" +
                             rec_str(a).substr(0, 500) + "} model{ret=" + (b.ret == RET_VOID ? std::string("void") : std::to_string(b.ret));
